@@ -10,7 +10,7 @@ MANIFEST = dict(
     design='6/C08')
 
 PFIELDS = ["tokens", "currentPos", "currentToken", "depth", "ctx", "positions", "strict", "dialect"]
-TFIELDS = ["input", "pos", "lineStart", "lineStarts", "line", "keywords", "dialect", "logger", "configured", "Comments"]
+TFIELDS = ["input", "pos", "lineStart", "lineStarts", "line", "keywords", "dialect", "logger", "configured", "loc", "Comments"]
 POP = {"parse": "OParse", "parse_raw_empty": "OParse", "parse_raw_nil": "OParse", "parse_noeof": "OParse", "parsepos": "OParsePos",
        "parsectx": "OParseCtx", "recover": "ORecover", "recoverpos": "ORecoverPos", "apply": "OApply", "reset": "OReset",
        "release": "ORelease", "putget": "OPutGet"}
@@ -73,6 +73,8 @@ def pick(rng, index, classes):
 def parser_call(rng, index, classes=PARSER_CLASSES):
     op = rng.choice(["parse", "parse", "parsepos", "parsepos", "parsectx", "parsectx", "recover", "recoverpos", "parse_noeof", "parse_raw_empty", "parse_raw_nil"])
     o = {"op": op, "in": pick(rng, index, classes)}
+    if op == "parse_noeof":
+        o["in"] = rng.choice(index["noeof_safe"])
     if op == "parsectx":
         o["ctx"] = rng.choice(CTX_MODES)
     return o
@@ -114,6 +116,26 @@ def tok_op(rng, index):
     return {"op": rng.choice(["reset", "putget", "putget"]), "in": -1}
 
 
+API_CALLS = ["gosqlx.Parse", "gosqlx.ParseWithContext", "gosqlx.Validate", "gosqlx.ParseMultiple", "gosqlx.ParseWithRecovery",
+             "parser.ValidateBytes", "parser.ParseBytes", "parser.ParseWithDialect", "parser.ValidateWithDialect",
+             "parser.ParseMultiWithRecovery", "pool.parser", "pool.parser", "pool.tokenizer"]
+
+
+def api_op(rng, index, probe=False):
+    calls = [c for c in API_CALLS if not (probe and c.startswith("pool."))]
+    op = rng.choice(calls)
+    o = {"op": op, "in": pick(rng, index, ["valid", "invalid", "invalid", "semis", "mysql", "mysql", "deep_ok", "deep_bad", "comments", "untok", "empty"])}
+    if op == "gosqlx.ParseWithContext":
+        o["ctx"] = "bg" if probe else rng.choice(["bg", "cancelled", "deadline", "poll:1", "poll:2", "poll:4"])
+    if op in ("parser.ParseWithDialect", "parser.ValidateWithDialect"):
+        o["opt"] = "dialect:" + rng.choice(["mysql", "postgresql", "sqlite"])
+    if op == "pool.parser":
+        o["opt"] = rng.choice(["strict", "dialect:mysql", "strict,dialect:mysql"])
+    if op == "pool.tokenizer":
+        o["opt"] = rng.choice(["dialect:mysql", "dialect:sqlite", "logger:on"])
+    return o
+
+
 def gen_histories(rng, index, n_random, trace_every):
     hs = []
     hid = 0
@@ -136,6 +158,8 @@ def gen_histories(rng, index, n_random, trace_every):
     for c, k in [("invalid", 4), ("semis", 3), ("mysql", 2), ("deep_ok", 2), ("valid", 2), ("empty", 1)]:
         for i in index[c][:k]:
             for op in PARSE_CALLS + ["parse_noeof"]:
+                if op == "parse_noeof" and i not in index["noeof_safe"]:
+                    continue
                 probes.append({"op": op, "in": i, **({"ctx": "bg"} if op == "parsectx" else {})})
     probes += [{"op": "parse_raw_empty", "in": 0}, {"op": "parse_raw_nil", "in": 0}]
     for ops in dirty_ops:
@@ -155,6 +179,11 @@ def gen_histories(rng, index, n_random, trace_every):
         for pr in tprobes:
             hs.append({"id": hid, "kind": "tokenizer", "start": rng.choice(["new", "pool"]), "ops": ops, "probe": pr, "trace": hid % trace_every == 0})
             hid += 1
+    # API level (gosqlx.* / parser.* convenience calls over the pools): warm pools vs empty pools
+    for k in range(max(60, n_random // 4)):
+        ops = [api_op(rng, index) for _ in range(rng.randrange(1, 13))]
+        hs.append({"id": hid, "kind": "api", "start": "pool", "ops": ops, "probe": api_op(rng, index, probe=True), "trace": False})
+        hid += 1
     # random histories, length <= 40
     for k in range(n_random):
         if k % 4 == 3:
@@ -172,16 +201,52 @@ def gen_histories(rng, index, n_random, trace_every):
     return hs
 
 
-def run_histories(hs, inputs, timeout=3000):
-    body = json.dumps({"inputs": inputs}) + "\n" + "".join(json.dumps(h) + "\n" for h in hs)
-    p = common.vh(["reuse"], input=body, timeout=timeout)
-    outs = []
-    for line in p.stdout.splitlines():
+class _P:
+    def __init__(self, rc, err):
+        self.returncode, self.stderr, self.stdout = rc, err, ""
+
+
+DIED = []      # histories on which the implementation hung or exhausted memory (C01 territory; listed in the evidence)
+
+
+def run_histories(hs, inputs, timeout=3000, mem_kb=6000000):
+    """run the histories in the harness under a memory limit; a history on which the implementation hangs or
+    exhausts memory kills the process: it is recorded in DIED and the remaining histories are run in a new process"""
+    import subprocess
+    binp = common.stage_harness()
+    outs, rest, rc, err = [], list(hs), 0, ""
+    for attempt in range(8):
+        if not rest:
+            break
+        body = json.dumps({"inputs": inputs}) + "\n" + "".join(json.dumps(h) + "\n" for h in rest)
         try:
-            outs.append(json.loads(line))
-        except ValueError:
-            pass
-    return p, outs
+            p = subprocess.run(["bash", "-c", "ulimit -v %d; exec %s reuse" % (mem_kb, binp)], input=body, stdout=subprocess.PIPE,
+                               stderr=subprocess.PIPE, text=True, timeout=timeout)
+            so, rc, err = p.stdout, p.returncode, p.stderr
+        except subprocess.TimeoutExpired as e:
+            so, rc, err = (e.stdout.decode() if isinstance(e.stdout, bytes) else (e.stdout or "")), 124, "timeout"
+        got = []
+        for line in so.splitlines():
+            try:
+                got.append(json.loads(line))
+            except ValueError:
+                break
+        outs += got
+        if len(got) >= len(rest):
+            rest = []
+            break
+        DIED.append({"history": self_contained(rest[len(got)], inputs), "exit": rc, "stderr": err[-200:]})
+        rest = rest[len(got) + 1:]
+    return _P(0 if not rest else rc, err), outs
+
+
+def screen_noeof(inputs, idxs):
+    """inputs on which Parse of the EOF-less token slice returns (the implementation hangs on some: C01's matter)"""
+    hs = [{"id": k, "kind": "parser", "start": "new", "ops": [{"op": "parse_noeof", "in": i}], "probe": {"op": "parse_raw_nil", "in": 0}, "trace": False}
+          for k, i in enumerate(idxs)]
+    _, outs = run_histories(hs, inputs, timeout=300, mem_kb=2000000)
+    ok = {o["id"] for o in outs}
+    return [i for k, i in enumerate(idxs) if k in ok]
 
 
 def failing(o):
@@ -338,6 +403,8 @@ def run(tier):
         return common.stage_fail(rp, e)
 
     inputs, index = build_inputs(rng, tier)
+    cand = [i for c in ("valid", "invalid", "semis", "mysql", "empty", "comments") for i in index[c]]
+    index["noeof_safe"] = screen_noeof(inputs, cand)
     n_random = 500 if tier == "quick" else 12000
     hs = gen_histories(rng, index, n_random, trace_every=2 if tier == "quick" else 8)
     hs_by_id = {h["id"]: h for h in hs}
@@ -410,12 +477,17 @@ def run(tier):
         for o in h["ops"]:
             oc[o["op"]] = oc.get(o["op"], 0) + 1
     rp.cov["histories"] = {"total": len(hs), "parser": sum(1 for h in hs if h["kind"] == "parser"), "tokenizer": sum(1 for h in hs if h["kind"] == "tokenizer"),
+                           "api": sum(1 for h in hs if h["kind"] == "api"),
                            "operations": sum(len(h["ops"]) for h in hs), "max_length": max(len(h["ops"]) for h in hs), "by_operation": oc,
                            "pool_put_get": reused, "pool_returned_other_object": sum(o.get("pool_other", 0) for o in outs),
                            "probe_outcome_classes": pc, "inputs": {c: len(v) for c, v in index.items()}}
     rp.cov["dirtiness_correspondence"] = {"histories": ncases, "mismatching": len(bad_ids), "struct_mismatch": len(broken)}
     rp.cov["field_effect_table"] = {"methods": len(fx.get("rows", [])), "parser_fields": fx.get("parser_fields"), "tokenizer_fields": fx.get("tokenizer_fields")}
     rp.cov["samples"] = [self_contained(hs[0], inputs), self_contained(hs[-1], inputs)]
+    if DIED:
+        rp.cov["implementation_hangs_skipped"] = DIED[:5]
+        rp.cov["notes"].append("%d histories killed the harness process (hang / memory exhaustion of the implementation on an EOF-less token slice or similar): "
+                               "that is C01's statement, not C08's; they are listed under implementation_hangs_skipped and skipped" % len(DIED))
     if stale:
         rp.cov["notes"].append("stale known findings (witness no longer fails): " + ", ".join(stale))
     rp.cov["notes"].append("Tokenizer.Reset (called by Tokenize) also drops the logger set by SetLogger: the logger never influences an outcome; stated in C08_tok_reset_is_fresh")
